@@ -234,6 +234,11 @@ func alignWindowStart(timestamp time.Time, windowSize time.Duration) time.Time {
 	// Align to window boundary (downward alignment)
 	// This creates consistent window boundaries aligned to epoch
 	alignedNano := (unixNano / windowSizeNano) * windowSizeNano
+	if alignedNano > unixNano {
+		// integer division truncates toward zero; floor for pre-epoch timestamps so
+		// that the aligned interval contains the timestamp
+		alignedNano -= windowSizeNano
+	}
 
 	// Convert back to time.Time
 	return time.Unix(0, alignedNano).UTC()
